@@ -22,6 +22,16 @@ fn verif_replay() {
         }
         return;
     }
+    if case["driver"].as_str() == Some("parse_pair") {
+        // two spellings of one expression (minimally vs fully parenthesised): do they parse to the same tree?
+        let (sa, sb) = (a["a"].as_str().unwrap_or("").to_string(), a["b"].as_str().unwrap_or("").to_string());
+        let r = std::panic::catch_unwind(|| (crate::parser::parse(&sa).map(|v| v.to_string()).ok(), crate::parser::parse(&sb).map(|v| v.to_string()).ok()));
+        match r {
+            Err(_) => println!("VERIF-OUTCOME {}", serde_json::json!({"panicked": true})),
+            Ok((ta, tb)) => println!("VERIF-OUTCOME {}", serde_json::json!({"panicked": false, "both_parsed": ta.is_some() && tb.is_some(), "same_tree": ta == tb, "tree_a": ta, "tree_b": tb})),
+        }
+        return;
+    }
     if case["driver"].as_str() == Some("check_eval") {
         // parse, type-check and evaluate one expression in an empty scope: does the value have the type the checker announced?
         let src = a["source"].as_str().unwrap_or("").to_string();
